@@ -475,7 +475,7 @@ SetSeq(S) == IF S = {} THEN <<>> ELSE LET m == CHOOSE q \in S : \A r \in S : q <
 \* Values that are plain arguments can be given by name; arrays only as objects.
 Spellings(n) == IF n.op \notin {"Replace", "Lin"} THEN <<>>
                 ELSE IF n.op = "Lin" \/ \A i \in 2..Len(n.d) : prog[n.d[i]].op = "Arg"
-                THEN <<"dict-str", "string", "tuple-of-strings", "list-of-pairs", "dict-argument-values", "argument-object-pairs", "mixed-pairs-and-strings">>
+                THEN <<"dict-str", "string", "tuple-of-strings", "list-of-pairs", "dict-argument-values", "argument-object-pairs", "mixed-pairs-and-strings", "list-of-strings">>
                 ELSE <<"dict-array-values", "list-of-name-array-pairs", "argument-object-array-pairs">>
 JNode(n) == [op |-> n.op, d |-> n.d, p |-> n.p, k |-> n.k, sh |-> n.sh, dt |-> n.dt, sp |-> n.sp, fv |-> SetSeq(n.fv), dg |-> n.dg,
              spell |-> Spellings(n)]
